@@ -66,6 +66,7 @@ func within(d time.Duration, f func() string) string {
 	case s := <-done:
 		return s
 	case <-time.After(d):
+		hangSeenAt.CompareAndSwap(0, time.Now().UnixNano())
 		return "hang"
 	}
 }
